@@ -203,6 +203,15 @@ theorem never_honoured_again (cfg : Cfg) (ops : List Op) (s : St) (c : Nat) (h :
     · exact dead_not_honoured_step cfg s op c h
     · exact ih _ (dead_step cfg s op c h) p hp
 
+/-- a client's own usage rule that says nothing about the lifetime keeps the general lifetime: its
+    tokens still expire -/
+theorem client_rule_keeps_general_lifetime (general : Rule) (m : Option (List Cls)) :
+    (mergeRule general (some { mints := m, expiresIn := none })).expiresIn = general.expiresIn := rfl
+
+/-- … and one that does not say what may be minted keeps the general list -/
+theorem client_rule_keeps_general_minting (general : Rule) (e : Option Nat) :
+    (mergeRule general (some { mints := none, expiresIn := e })).mints = general.mints := rfl
+
 /-- a revoked token is dead (entry point of the cascade theorems) -/
 theorem dead_of_all_revoked {s : St} {c : Nat} (hc : c < s.next)
     (h : ∀ t ∈ s.toks, t.id = c → t.revoked = true) : Dead s c :=
